@@ -407,21 +407,9 @@ Section Ledger.
   Definition finish (s : lstate) (t : tx) (status : N) (fee : Z) : lstate :=
     with_block s (bp_reward s + fee) (receipts s ++ [mk_receipt t status fee]).
 
-  (** chain.executeTx.  [RRejected] = an error is returned (the caller rolls back). *)
-  Definition exec_tx_core (bno : N) (s : lstate) (t : tx) : exec_result :=
-    let account := resolve s (t_from t) in
-    if negb (validate t) then RRejected else
-    let sender := get_astate s account in
-    if negb (validate_with_sender_state t (a_new sender)) then RRejected else
-    let recipient := resolve s (recipient_of t) in
-    let created := (recipient =? 0)%N in
-    let rid := if created then cid_of (t_from t) (t_nonce t) else recipient in
-    let receiver0 := get_astate s rid in
-    if created && negb (a_isnew receiver0) then RRejected else
-    let receiver := if created
-      then {| a_id := rid; a_old := a_old receiver0; a_new := a_new receiver0; a_isnew := true; a_deploy := true |}
-      else receiver0 in
-    let status := if created then 1%N else 0%N in
+  (** chain.executeTx after the sender and receiver objects have been obtained: the switch on
+      the transaction type, the error classes, the final PutStates and the receipt. *)
+  Definition exec_tx_body (bno : N) (s : lstate) (t : tx) (sender receiver : astate) (status : N) : exec_result :=
     let feedeleg := match t_kind t with KFeeDeleg => true | _ => false end in
     (* the switch on the type *)
     let r : option (cres * lstate * astate * astate * Z) :=
@@ -460,6 +448,23 @@ Section Ledger.
         let s2 := if (a_id sender' =? a_id receiver')%N then s1 else put_state s1 receiver' in
         RApplied (finish s2 t status fee)
     end.
+
+
+  (** chain.executeTx.  [RRejected] = an error is returned (the caller rolls back). *)
+  Definition exec_tx_core (bno : N) (s : lstate) (t : tx) : exec_result :=
+    let account := resolve s (t_from t) in
+    if negb (validate t) then RRejected else
+    let sender := get_astate s account in
+    if negb (validate_with_sender_state t (a_new sender)) then RRejected else
+    let recipient := resolve s (recipient_of t) in
+    if (recipient =? 0)%N then
+      (* state.CreateAccountState(contract.CreateContractID(txBody.Account, txBody.Nonce)) *)
+      let rid := cid_of (t_from t) (t_nonce t) in
+      let r0 := get_astate s rid in
+      if negb (a_isnew r0) then RRejected else
+      exec_tx_body bno s t sender
+        {| a_id := rid; a_old := a_old r0; a_new := a_new r0; a_isnew := true; a_deploy := true |} 1%N
+    else exec_tx_body bno s t sender (get_astate s recipient) 0%N.
 
   (** NewTxExecutor: snapshot; executeTx; rollback on error *)
   Definition exec_tx (bno : N) (s : lstate) (t : tx) : outcome * lstate :=
